@@ -24,7 +24,7 @@ PID = "C16"
 COQ_HEADER = ("From stdpp Require Import gmap strings.\n"
               "From SK Require Import lib.Tok model.C15_Model model.C16_Model.\n"
               "Local Open Scope string_scope.\n")
-SHARD = 60
+SHARD = 120
 IMPL_TIMEOUT = 1500
 COQ_TIMEOUT = 1500
 RULE = ("a case = one reaction network (list of reactions with ids, rules, coefficient maps; molecule labels; kept isolated "
@@ -35,7 +35,8 @@ RULE = ("a case = one reaction network (list of reactions with ids, rules, coeff
 EXHAUSTIVE = {"quick": True, "thorough": True}
 EXPLANATION = ("Exhaustive sub-spaces: every set of <=2 (quick) / <=3 (thorough) reactions out of the 90 reactions between the 10 "
                "complexes of molecularity <=2 over 3 species (coefficients scaled by PRNG factors from {1,2,3,12}, 2 rule names, PRNG "
-               "label triple and flag combination per network); every text of length <=4 (quick) / <=5 (thorough) over the alphabet "
+               "label triple and flag combination per network; in the quick tier a pair of reactions goes through one of the three "
+               "views in rotation, single reactions and the thorough tier through all three); every text of length <=4 (quick) / <=5 (thorough) over the alphabet "
                "{A,2,0,space,+,*,_} through RXNSide.from_str; every bipartite export flag combination on a fixed set of networks. "
                "Everything else (random networks <=8 species / 10 reactions, fuzzed reaction lines, adversarial labels) is seeded random. "
                "Theorems: see coq/props/C16.v (round trips proved for all networks satisfying the stated decidable preconditions).")
@@ -196,7 +197,9 @@ def _run_view(H, v):
 
 def impl(case):
     H = build(case.get("net", {}))
-    return [_net_obs(H)] + [_run_view(H, v) for v in case["views"]]
+    before = _net_obs(H)
+    views = [_run_view(H, v) for v in case["views"]]
+    return [before] + views + [_net_obs(H)]          # all views run on ONE object; it must come out unchanged
 
 
 # ------------------------------------------------------------------ model encoder
@@ -387,8 +390,8 @@ def neighbours(case, rng):
 
 def nontrivial(case, obs):
     if case.get("net", {}).get("rxns"):
-        return any(isinstance(o, list) and len(o) == 2 and isinstance(o[1], list) and o[1] and o[1][0] == 0 for o in obs[1:])
-    return any(isinstance(o, list) and len(o) == 2 and o[0] == 0 and o[1] for o in obs[1:])
+        return any(isinstance(o, list) and len(o) == 2 and isinstance(o[1], list) and o[1] and o[1][0] == 0 for o in obs[1:-1])
+    return any(isinstance(o, list) and len(o) == 2 and o[0] == 0 and o[1] for o in obs[1:-1])
 
 
 def distribution(cases, obss):
@@ -597,7 +600,12 @@ def gen_cases(tier, rng):
     for k in range(0, 3 if quick else 4):
         for idx in itertools.combinations(range(len(R)), k):
             net = _small_net(rng, [R[i] for i in idx])
-            cases.append(dict(kind="exh-small-%d" % k, net=net, views=_std_views(rng)))
+            vs = _std_views(rng)
+            if quick and k == 2:
+                # quick tier: every pair of reactions is still generated, but goes through ONE of the three views (rotating);
+                # singles go through all three; the thorough tier runs all three views on every set
+                vs = [vs[len(cases) % 3]]
+            cases.append(dict(kind="exh-small-%d" % k, net=net, views=vs))
     # ---- pure catalysts: a species with the same coefficient on both sides that is the ONLY species on one side
     #      (its self-arc is the only carrier of that side in the species graph), plus ordinary catalysis for contrast
     cat_labels = [("S", "E", "P"), ("CC(=O)O", "Fe(OH)3", "C#C")]
